@@ -105,6 +105,10 @@ func C06CLI(r *simkit.Run) {
 	validate := func() CmdResult {
 		return w.Atlas(nil, "migrate", "validate", "--dir", w.DirURL())
 	}
+	// Another name for the same directory (see the schema-state consumer below).
+	if err := os.Symlink(w.Mig, filepath.Join(w.Root, "mdir")); err != nil {
+		simkit.Harnessf("symlink: %v", err)
+	}
 	// Optionally the directory starts as an import from a third-party tool.
 	if t.Chance("start-from-import", 1, 3) {
 		format := ImportFormats[t.Draw("import-format", len(ImportFormats))]
@@ -156,6 +160,25 @@ func C06CLI(r *simkit.Run) {
 			r.Probe("tamper-on-valid-directory")
 		}
 		valid = now
+		// A directory can also be named as the *state* of a schema command, by a relative URL and under
+		// any name (here a link called mdir): it is replayed on the dev database, and it is validated
+		// first like everywhere else.
+		// (Without a sum file such a directory is, by design, a directory of schema files and not a
+		// migration directory: nothing to validate then.)
+		_, sumErr := os.Stat(filepath.Join(w.Mig, "atlas.sum"))
+		if !r.Failed() && sumErr == nil && t.Chance("also-as-schema-state", 1, 4) {
+			sd := w.Atlas(nil, "schema", "diff", "--from", "file://mdir", "--to", "file://mdir", "--dev-url", w.DevURL())
+			r.Logf("  schema diff from/to the directory -> %s", sd.Class())
+			r.Fired("consumer/schema-state")
+			out := sd.Stderr + sd.Stdout
+			if sd.Panicked {
+				r.Fail(propC06, "no-crash", "schema-state-panic", "%s: schema diff panicked: %s", step, sd.ErrLine())
+			} else if !now && sd.Exit == 0 { // (a refusal for another reason, e.g. "no SQL files", is a refusal)
+				r.Fail(propC06, "integrity", "schema-command-accepts-tampered-dir", "%s: `migrate validate` rejects the directory but `schema diff --from file://mdir --to file://mdir` -> %s: %s", step, sd.Class(), sd.ErrLine())
+			} else if now && sd.Exit != 0 && strings.Contains(out, "checksum") {
+				r.Fail(propC06, "integrity", "schema-command-rejects-valid-dir", "%s: the directory validates but `schema diff` with it as state reports a checksum error: %s", step, sd.ErrLine())
+			}
+		}
 		// `migrate apply` refuses a tampered directory (dry-run: the target stays untouched).
 		if !r.Failed() && t.Chance("also-apply", 1, 3) {
 			ap := w.Atlas(nil, "migrate", "apply", "--dir", w.DirURL(), "--url", w.URL(), "--dry-run")
